@@ -27,9 +27,9 @@ func genCase(t *rapid.T) copyx.Case {
 	if vt.Thorough() {
 		max = 32
 	}
-	c := copyx.GenBase(t, gen.DAGOpts{MaxNodes: max}, srcKinds, dstKinds)
+	c := copyx.GenBase(t, gen.DAGOpts{MaxNodes: max, URLsOnAny: true}, srcKinds, dstKinds)
 	d := gen.Build(c.Specs)
-	c.API = rapid.SampledFrom([]string{"copygraph", "copy", "copy", "copy-blankdst", "copy-maproot"}).Draw(t, "api")
+	c.API = rapid.SampledFrom([]string{"copygraph", "copy", "copy", "copy-blankdst", "copy-maproot", "copy-digestdst"}).Draw(t, "api")
 	if c.API == "copy-maproot" {
 		// map to a manifest reachable from the root (or the root itself)
 		var cands []int
@@ -207,6 +207,9 @@ func runCase(c copyx.Case) (res vt.Result, fail *vt.Fail) {
 		ref := copyx.DstRef
 		if c.API == "copy-blankdst" {
 			ref = copyx.SrcRef
+		}
+		if c.API == "copy-digestdst" {
+			ref = root.Desc.Digest.String()
 		}
 		got, err := e.RawDst.Resolve(context.Background(), ref)
 		if err != nil {
